@@ -1,5 +1,5 @@
 (* C07 - a refused transfer moves no data, leaks nothing and leaves the session usable. *)
-From LibFtp Require Import Bytes Decimal Reply Endpoint Ascii DataConn DataConn_Proofs Client Client_Proofs Login_Proofs Transfer_Proofs Transfer_More Refusals.
+From LibFtp Require Import Bytes Decimal Reply Endpoint Ascii DataConn DataConn_Proofs Client Client_Proofs Login_Proofs Transfer_Proofs Transfer_More Refusals Moves_Global.
 Local Open Scope N_scope.
 
 (* Refusal at the set-up command in passive mode (EPSV or PASV answered by any negative reply other than 421), for
@@ -158,3 +158,25 @@ Theorem C07_upload_refused_at_setup_passive : forall w u path chunks cb r1 rest 
     data_events (skipn (length (w_trace w)) (w_trace w')) = [].
 Proof. exact upload_refused_at_setup_passive. Qed.
 Print Assumptions C07_upload_refused_at_setup_passive.
+
+(* ------------------------------------------------------------------ every call, every state, every server *)
+(* [okio None tr]: in the events tr a call adds to the trace, every event that touches the caller's sink, source or
+   transfer callback or moves bytes on the data connection ([EIo]) happens while the most recent reply read in this call
+   ([ERecv]) is a non-negative one - never before the first reply, and never after a refusal, whatever the server does *)
+Theorem C07_nothing_moves_unless_accepted : forall a w,
+  exists tr, w_trace (snd (step w a)) = w_trace w ++ tr /\ okio None tr.
+Proof. exact step_moves_only_when_accepted. Qed.
+Print Assumptions C07_nothing_moves_unless_accepted.
+
+(* read on the trace: whatever precedes such an event ends with a non-negative most recent reply *)
+Theorem C07_nothing_moves_after_a_refusal : forall a w tr pre e post,
+  w_trace (snd (step w a)) = w_trace w ++ tr -> tr = pre ++ EIo e :: post ->
+  exists r, lastr None pre = Some r /\ is_negative r = false.
+Proof. exact nothing_moves_after_a_refusal. Qed.
+Print Assumptions C07_nothing_moves_after_a_refusal.
+
+Example C07_moves_example :
+  let run_it code := w_trace (snd (steps (init_world (mkConfig Passive true TBinary false false) (moves_script code))
+                                         [AConnect [104%N] 21%N None; ADownload [102%N] None None])) in
+  (0 < io_count (run_it 150%N))%nat /\ io_count (run_it 550%N) = O.
+Proof. exact moves_example. Qed.
